@@ -55,10 +55,10 @@ def run_scenarios(
         for key, (msg, hist) in res.violations.items():
             if not key.startswith(prefix):
                 continue
-            _confirm_deterministic(mk, hist, key)
+            same = _confirm_deterministic(mk, hist, key)
             acc.violation(
                 key[len(prefix):],
-                msg + " | scenario=" + json.dumps(jsonable(_brief(sc))),
+                msg + ("" if same else " [reproduced on 4 of 4 replays; other events of the run vary between replays]") + " | scenario=" + json.dumps(jsonable(_brief(sc))),
                 {"scenario": sc, "history": hist, "key": key},
             )
         if sc.get("stateless"):
@@ -110,10 +110,15 @@ def _double_replay(mk: Callable[[], World], hist: List[Any]) -> None:
         raise HarnessError(f"two replays of the same passing schedule differ (hidden nondeterminism): {hist!r}")
 
 
-def _confirm_deterministic(mk: Callable[[], World], hist: List[Any], key: str) -> None:
-    """Replay a violating history twice: same violation, same log, same fingerprint."""
+def _confirm_deterministic(mk: Callable[[], World], hist: List[Any], key: str) -> bool:
+    """Replay a violating history: the violation must reproduce on every replay. Normally log and
+    fingerprint are identical too; if they are not (the code under test iterates over a set of tasks, say),
+    the history is replayed twice more and the violation is kept only if all four replays show it -
+    the same schedule fails every time; returns False in that case so that the report says so."""
     obs = []
-    for _ in range(2):
+    for rnd in range(4):
+        if rnd == 2 and obs[0] == obs[1]:
+            break
         w = mk()
         keys = [k for k, _ in w.violations]
         for step in hist:
@@ -127,10 +132,9 @@ def _confirm_deterministic(mk: Callable[[], World], hist: List[Any], key: str) -
         keys.extend(k for k, _ in w.violations)
         obs.append((tuple(w.log), w.fingerprint(), key in keys))
         w.teardown()
-    if obs[0] != obs[1]:
-        raise HarnessError(f"replay of {key} is not deterministic")
-    if not obs[0][2]:
-        raise HarnessError(f"violation {key} did not reproduce on replay")
+    if not all(o[2] for o in obs):
+        raise HarnessError(f"violation {key} did not reproduce on every replay ({[o[2] for o in obs]})")
+    return len(obs) == 2
 
 
 def replay(obj: Dict[str, Any], make_world: Callable[[Dict[str, Any]], World]) -> int:
